@@ -776,3 +776,11 @@ def consensus_calls(rng):
         n = rng.randint(1, 6)
         seqs = ["".join(rng.choice("ACD") for _ in range(L)) for _ in range(n)]
         yield {"seqs": seq([S(x) for x in seqs], "list"), "align": {"t": "const", "v": False}}
+
+
+@scope("label_color_calls")
+def label_color_calls(rng):
+    for _ in range(300):
+        n = rng.randint(0, 9)
+        labels = [rng.choice(["a", "b", "c", "dd", "e"]) for _ in range(n)]
+        yield {"labels": seq([S(x) for x in labels], "list"), "min_count": rng.choice([NONE, I(1), I(2), I(3), I(0)])}
